@@ -36,13 +36,25 @@ func caseKey(gk, op string, c Ctx, x, y Dec, q int) string {
 	return string(b)
 }
 
+// gModes: the same call under the default and the eight rounding modes. One group in four is run in place
+// (destination = first or second operand, the same for all nine runs).
 func gModes(op string, c Ctx, x, y Dec, q int) GEv {
-	g := GEv{K: "g", Gk: "modes", Op: op, Ctx: c, Key: caseKey("modes", op, withMode(c, ""), x, y, q)}
+	al := ""
+	modeAliasCtr++
+	if modeAliasCtr%4 == 0 {
+		al = "dx"
+		if binOps[op] && modeAliasCtr%8 == 0 {
+			al = "dy"
+		}
+	}
+	g := GEv{K: "g", Gk: "modes", Op: op, Ctx: c, Key: caseKey("modes"+al, op, withMode(c, ""), x, y, q)}
 	for _, m := range append([]string{""}, modeNames...) {
-		g.Runs = append(g.Runs, run(m, op, withMode(c, m), x, y, q, "", fresh))
+		g.Runs = append(g.Runs, run(m, op, withMode(c, m), x, y, q, al, fresh))
 	}
 	return g
 }
+
+var modeAliasCtr = 0
 
 var mirrorMode = map[string]string{"floor": "ceiling", "ceiling": "floor"}
 
